@@ -66,7 +66,7 @@ add('C10', 'SYS', 'model_checking',
     'explicit-state BFS + repeated-delivery deviation on every transition', 'DESIGN.md section 5 C10')
 
 add('C16', 'SYS+ENUM', 'fault_enumeration',
-    '(a) for every shell command index of every kind of job (scripted histories on a credentialed clone URL): the command fails and hangs while printing the URL; all channels (formatted log records with tracebacks at DEBUG and INFO, fd 1/2, job status/details/json, /api/jobs payload, status page, comments) are searched for the password in raw and quoted forms. (a') the masking of simplecmd.cmd itself over 34 boundary passwords x {success, exit 128, time-out} x {DEBUG, INFO}. (b) GitHub password and App flows through a scripted HTTP session with one misbehaving endpoint at a time; log, stdout, stderr and exception text searched for password, header values, JWT and installation token.',
+    '(a) for every shell command index of every kind of job (scripted histories on a credentialed clone URL): the command fails and hangs while printing the URL; all channels (formatted log records with tracebacks at DEBUG and INFO, fd 1/2, job status/details/json, /api/jobs payload, status page, comments) are searched for the password in raw and quoted forms. (a2) the masking of simplecmd.cmd itself over 34 boundary passwords x {success, exit 128, time-out} x {DEBUG, INFO}. (b) GitHub password and App flows through a scripted HTTP session with one misbehaving endpoint at a time; log, stdout, stderr and exception text searched for password, header values, JWT and installation token.',
     'fault injection keeps the original command line (behaviour comes from an environment variable) so a URL is on the command line only if the real command has it; mock git host for (a), scripted requests.Session.request for (b).',
     'exhaustive single-fault enumeration on the real implementation', 'DESIGN.md section 5 C16')
 
